@@ -12,8 +12,8 @@
      renderCell      switch { case n < 0, n > 0, n == 0: Fprintf(w, "%*.*f%%", l-1, Round, n*100) }
    so (1) the width reserved for the cell is not the width of what is written (n * 100 with
    --digits places), and (2) for a NaN none of the three cases is taken and nothing is written,
-   not even padding.  A negative --digits makes fmt write "%!(BADPREC)" and fall back to six
-   places.  All three are modelled as they are (Properties/C17w.v: C17_weights_nan_refuted,
+   not even padding.  A negative --digits (or one above 1e6) makes fmt write "%!(BADPREC)" and
+   fall back to six places.  All three are modelled as they are (Properties/C17w.v: C17_weights_nan_refuted,
    C17_weights_digits6_refuted, C17_weights_negative_digits_refuted).
 
    Weights: the report values are float64 in Go.  The rows of the table model carry floats
@@ -52,9 +52,11 @@ Definition wmin_length (round : Z) (c : pcell) : Z :=
 
 Definition s_badprec : str := [37;33;40;66;65;68;80;82;69;67;41].     (* %!(BADPREC) *)
 
-(* the precision fmt uses for "%*.*f" with the argument Round: a negative one is dropped
-   (fmt/print.go doPrintf: "%!(BADPREC)" is written and %f's default of 6 applies) *)
-Definition pct_prec (round : Z) : Z := if round <? 0 then 6 else round.
+(* the precision fmt uses for "%*.*f" with the argument Round: a negative one, and one above
+   1e6 (fmt/print.go tooLarge), is dropped: doPrintf writes "%!(BADPREC)" and %f's default of
+   6 applies *)
+Definition pct_badprec (round : Z) : bool := (round <? 0) || (1000000 <? round).
+Definition pct_prec (round : Z) : Z := if pct_badprec round then 6 else round.
 
 (* the numeral of n * 100 *)
 Definition pct_num (round : Z) (n : f64) : str := fmt_f (pct_prec round) (f64_mul100 n).
@@ -63,7 +65,7 @@ Definition pct_num (round : Z) (n : f64) : str := fmt_f (pct_prec round) (f64_mu
    width 1 - l, which pads nothing here (widths are never negative and the numeral is never
    empty), as pad_left with a non-positive count *)
 Definition pct_text (round : Z) (n : f64) (l : Z) : str :=
-  (if round <? 0 then s_badprec else []) ++ pad_left (l - 1) (pct_num round n) ++ [37].
+  (if pct_badprec round then s_badprec else []) ++ pad_left (l - 1) (pct_num round n) ++ [37].
 
 (* TextRenderer.renderCell *)
 Definition wrender_cell (round : Z) (c : pcell) (l : Z) : str :=
